@@ -1,6 +1,6 @@
 #!/usr/bin/env python3
 """matrix.py [--todo] [mutant ids...]: which checks report which seeded change.
-Each change is applied to a scratch copy of /repo's working tree (removed afterwards); all registered checks run on the
+Each change is applied to a scratch copy of /repo's HEAD (removed afterwards); all registered checks run on the
 copy in one process in self-test mode (no evidence written). Result: seeded/MATRIX.json {mutant: {check: [rules that fired]}}.
 --todo: only the changes that have no row yet.  --checks=C15,C10: run only these checks and merge into existing rows.  Development tool; not a registered command."""
 import json
@@ -25,7 +25,8 @@ if "--todo" in sys.argv:
 for mid in ids:
     scratch = tempfile.mkdtemp(prefix="simp-matrix-")
     try:
-        subprocess.run(["rsync", "-a", "--exclude", "/target", "--exclude", "/.git", "/repo/", scratch + "/"], check=True)
+        # from /repo's HEAD, not its working tree: a seeded change being tried in /repo at this moment must not leak in
+        subprocess.run("git -C /repo archive HEAD | tar -x -C %s" % scratch, shell=True, check=True)
         a = subprocess.run(["git", "apply", "--whitespace=nowarn", VERIF + "/seeded/%s/patch.diff" % mid], cwd=scratch)
         if a.returncode != 0:
             M[mid] = {"_status": "patch does not apply"}
